@@ -244,21 +244,26 @@ static void case_roundtrip(const Args &a, long idx, bool wantDesc, CaseResult &r
     int n = (int)R.ri(1, 12); int extMode = (int)R.ri(0, 9);   // 0: no external ids, 1: some missing, else all set
     auto quarter = [&](long lo, long hi) { return R.ri(lo * 4, hi * 4) / 4.0; };
     struct NRec { long ext; double cx, cy, w, h; }; std::vector<NRec> nr(n); std::set<long> usedExt;
-    for (int i = 0; i < n; i++) { long e; do { e = R.ri(0, 60); } while (usedExt.count(e)); usedExt.insert(e); bool has = extMode >= 2 || (extMode == 1 && R.coin()); nr[i] = NRec{has ? e : -1, quarter(-500, 500), quarter(-500, 500), quarter(1, 80), quarter(1, 80)}; }
+    // "near" variant: the external ids that are set lie in the range of the internal ids the nodes are about to get, so that the writer's
+    // numbering of nodes WITHOUT an external id has to steer around them (ids recorded relative to the first internal id: "k" means first+k)
+    bool nearInternal = extMode == 1 && R.coin(0.6);
+    for (int i = 0; i < n; i++) { long e; do { e = nearInternal ? R.ri(0, n + 4) : R.ri(0, 60); } while (usedExt.count(e)); usedExt.insert(e); bool has = extMode >= 2 || (extMode == 1 && R.coin()); nr[i] = NRec{has ? e : -1, quarter(-500, 500), quarter(-500, 500), quarter(1, 80), quarter(1, 80)}; }
     struct ERec { int s, t; std::vector<std::pair<double, double>> pts; }; std::vector<ERec> er; std::set<std::pair<int, int>> usedE;
     int m = n >= 2 ? (int)R.ri(0, std::min(14, n * (n - 1) / 2)) : 0;
     for (int t = 0; t < 60 && (int)er.size() < m; t++) { int s = (int)R.ri(0, n - 1), d = (int)R.ri(0, n - 1); if (s == d || usedE.count({std::min(s, d), std::max(s, d)})) continue; usedE.insert({std::min(s, d), std::max(s, d)}); ERec e; e.s = s; e.t = d; int k = R.coin(0.4) ? 0 : (int)R.ri(1, 5); for (int q = 0; q < k; q++) e.pts.push_back({quarter(-500, 500), quarter(-500, 500)}); er.push_back(e); }
     std::vector<PairSpec> ps; if (n >= 2) ps = genPairs(R, n, false); if (R.coin(0.15)) ps.clear();
     double extra = R.coin(0.7) ? 0 : quarter(0, 6);
     JArr nj; for (auto &x : nr) nj.raw(JArr().i(x.ext).num(x.cx).num(x.cy).num(x.w).num(x.h).done());
+    if (nearInternal) res.count("graphs_with_external_ids_in_the_range_of_the_internal_ids");
     JArr ej; for (auto &e : er) { JArr p; for (auto &q : e.pts) p.num(q.first).num(q.second); ej.raw(JArr().i(e.s).i(e.t).raw(p.done()).done()); }
-    std::string desc = JObj().raw("nodes_ext_cx_cy_w_h", nj.done()).raw("edges_s_t_route", ej.done()).raw("constraints", pairsJson(ps)).num("extraBdryGap", extra).done();
+    std::string desc = JObj().raw("nodes_ext_cx_cy_w_h", nj.done()).raw("edges_s_t_route", ej.done()).raw("constraints", pairsJson(ps)).num("extraBdryGap", extra).b("external_ids_relative_to_first_internal_id", nearInternal).done();
     Digest D; D.s(desc); res.digest = D.h; res.gen = std::string(extMode == 0 ? "no-external-ids" : extMode == 1 ? "some-external-ids" : "external-ids") + (ps.empty() ? "" : "+constraints") + (er.empty() ? "" : "+edges");
     if (wantDesc) res.desc = desc;
     res.nontrivial = !ps.empty() && !er.empty();
 
     Graph G; std::vector<Node_SP> ns(n); std::vector<int> order(n); for (int i = 0; i < n; i++) order[i] = i; R.shuffle(order);
     for (int q = 0; q < n; q++) ns[order[q]] = Node::allocate();
+    if (nearInternal) { id_type first = ns[order[0]]->id(); for (auto &x : nr) if (x.ext >= 0) x.ext += (long)first; }
     for (int i = 0; i < n; i++) { ns[i]->setDims(nr[i].w, nr[i].h); ns[i]->setCentre(nr[i].cx, nr[i].cy); if (nr[i].ext >= 0) ns[i]->setExternalId((unsigned)nr[i].ext); G.addNode(ns[i]); }
     for (auto &e : er) { Edge_SP ed = G.addEdge(ns[e.s], ns[e.t]); std::vector<Avoid::Point> r; for (auto &q : e.pts) r.push_back(Avoid::Point(q.first, q.second)); ed->setRoute(r); }
     SepMatrix &M = G.getSepMatrix(); M.setExtraBdryGap(extra); for (auto &p : ps) addPair(M, ns, p);
